@@ -263,12 +263,18 @@ class Run:
 
 
 def load_known_findings(pid):
-    p = os.path.join(VERIF, "known_findings.json")
-    try:
-        data = json.load(open(p))
-    except FileNotFoundError:
-        return []
-    return [k for k in data.get("findings", []) if k.get("property") == pid and k.get("status") == "open"]
+    """Open known findings of a property: known_findings.json (merged, committed) and known/<pid>.json."""
+    out, seen = [], set()
+    for p in (os.path.join(VERIF, "known_findings.json"), os.path.join(VERIF, "known", f"{pid}.json")):
+        try:
+            data = json.load(open(p))
+        except FileNotFoundError:
+            continue
+        for k in data.get("findings", []):
+            if k.get("property") == pid and k.get("status") == "open" and k.get("id") not in seen:
+                seen.add(k.get("id"))
+                out.append(k)
+    return out
 
 
 def run_repo_python(script, args=(), timeout=900, env=None, input=None):
